@@ -159,11 +159,55 @@ def run(ctx, rep):
         if ctx.driver_ok:
             lines.append("implicitrow ; " + " ".join(frac_str(v) for v in d))
             meta.append(("row", float(val), {"dot": [str(v) for v in d]}))
+    # ---------- the whole fitness vector through the real ImplicitRegression object, with and without `required_params`
+    from bingo.symbolic_regression.implicit_regression import ImplicitRegression, ImplicitTrainingData
+
+    class UnitGradient:
+        """an 'equation' whose x-gradient is 1 everywhere: df_dx * dx_dt = dx_dt, so the rows of dx_dt are the dot products"""
+        def evaluate_equation_with_x_gradient_at(self, x):
+            return np.zeros((x.shape[0], 1)), np.ones_like(x)
+
+    for t in range(ctx.n(200, 2000)):
+        ncol = rng.randrange(1, 5)
+        nrow = rng.randrange(1, 5)
+        dots = [[Fraction(rng.randrange(-6, 7), rng.choice([1, 2, 4])) if rng.random() < 0.7 else Fraction(0) for _ in range(ncol)] for _ in range(nrow)]
+        if rng.random() < 0.3:
+            for r in dots:                       # rows of an exact invariant
+                if len(r) >= 2:
+                    r[-1] = -sum(r[:-1])
+        req = rng.choice([None, None, 1, 2, 3, 4])
+        arr = np.array([[float(v) for v in r] for r in dots]).reshape(nrow, ncol)
+        td = ImplicitTrainingData(np.zeros_like(arr), arr)
+        reg = ImplicitRegression(td, required_params=req)
+        with np.errstate(all="ignore"):
+            vec = reg.evaluate_fitness_vector(UnitGradient())
+        case = {"dots": [[str(v) for v in r] for r in dots], "required_params": req}
+        rep.case(("vec", str(case)), req is not None)
+        rep.count("implicit_vector", f"required_params={req}")
+        # direct oracle: an exact-invariant row is zero whenever SOME row uses at least `required_params` terms
+        enough = req is None or any(sum(1 for v in r if v != 0) >= req for r in dots)
+        for r, v in zip(dots, vec):
+            if enough and sum(r) == 0 and any(x != 0 for x in r) and not (abs(float(v)) < 1e-12):
+                rep.violate(f"an exact-invariant row has implicit fitness {float(v)} (required_params={req}, some row uses enough terms)",
+                            "C20:invariant-not-zero", case)
+                break
+        if ctx.driver_ok:
+            lines.append(f"implicitvec ; {'none' if req is None else req} ; " + " | ".join(" ".join(frac_str(v) for v in r) for r in dots))
+            meta.append(("vec", [float(v) for v in vec], case))
     if ctx.driver_ok:
         outs = run_driver(lines)
         rep.corr_cases = len(lines)
         for line, o, (kind, want, case) in zip(lines, outs, meta):
-            if kind == "weights":
+            if kind == "vec":
+                got = o.split()[1:] if o.startswith("ok") else None
+                if got is None or len(got) != len(want):
+                    rep.disagree(f"implicit fitness vector: model {o[:80]} vs code {want}", case)
+                else:
+                    for g, w in zip(got, want):
+                        if (g == "nonfinite") != (not math.isfinite(w)) or (g != "nonfinite" and abs(float(Fraction(g)) - w) > 1e-12):
+                            rep.disagree(f"implicit fitness vector: model {got} vs code {want}", case)
+                            break
+            elif kind == "weights":
                 w = [[Fraction(t) for t in row.split()] for row in o[3:].split(" | ")]
                 resp = want
                 n = resp.shape[0]
